@@ -1068,7 +1068,9 @@ func (w *world) check(c *core.Ctx, op, out string, ep *peer, pre, post obs) {
 		if po.synced && po.cons != po.fApp {
 			fail("synced-replica-index", fmt.Sprintf("after %q synced with consumed %d but follower appended %d", op, po.cons, po.fApp))
 		}
-		if mine && out == "mismatch" {
+		// (the answer to a request whose Put failed on the follower is a correct report, not a mismatch
+		// of the two sides; what matters is whether the channel is left out of step, checked above)
+		if mine && out == "mismatch" && !w.putFailed {
 			fail("mismatched-answer", fmt.Sprintf("%q: follower answered %d to offered index %d", op, w.lastResp.AckIndex, w.lastReq.ReplicaIndex))
 		}
 		if mine && out == "ignored" {
